@@ -35,6 +35,11 @@ Theorem C20_curie : forall sp, sp 47%N = false -> forall s, is_w3c_curie sp s = 
 Proof. exact curie_is_spec. Qed.
 Print Assumptions C20_curie.
 
+(* the executable predicate of the run (the two answers equal those of the documented grammar) accepts the model on every string *)
+Theorem C20_P_model : forall s spaces, valid_w3c spaces = true -> P_C20 (sp_of spaces) s (model_w3c (sp_of spaces) s) = true.
+Proof. exact P_C20_model. Qed.
+Print Assumptions C20_P_model.
+
 (* with re.match (the code before the repair) the statement is false: "GO\n" and "a:b c" *)
 Theorem C20_match_refuted : let sp := (fun c => N.eqb c 32 || N.eqb c 10)%N in
   is_w3c_prefix_match sp [71; 79; 10]%N = true /\ ncnameb [71; 79; 10]%N = false /\
